@@ -6,8 +6,9 @@ Every theorem is about `KG.Model.Forward` (the mirror of dispatcher.go / upgrade
 termination.go / upstreaminfo.go and of the `net/url` functions on the way) and the judges of `KG.Spec.Forward`.
 They quantify over all byte strings, all header maps, all scenarios.
 
-Three places where the full statement of the property is FALSE of the code (findings, see notes/C04.md) are kept
-visible: the full statement as a `def … : Prop`, a kernel-checked refutation by witness, and the proved partial theorem.
+Two places where the full statement of the property is FALSE of the code (findings C04-invalid-raw-byte-reencoded and
+C04-requestinfo-error-plain-500, see notes/C04.md) are kept visible: the full statement as a `def … : Prop`, a kernel-checked refutation by witness, and the
+proved partial theorem with its explicit decidable hypothesis.
 -/
 namespace KG.Props.C04
 open KG KG.Model.Forward KG.Spec.Forward KG.Lemmas.Forward
@@ -44,6 +45,73 @@ theorem c04_path_full_false : ¬ PathFidelityFull := by
   have := h [47, 37, 50, 70, 34] [47, 47, 34] [47, 47, 37, 50, 50] (by decide) (by decide) (by decide)
   revert this
   decide
+
+/-- partial, with the explicit decidable hypothesis `validEncoded p` (the escaped path holds only bytes net/url
+    accepts in `RawPath`): the statement of `PathFidelityFull` holds, in the strongest form `out = p` -/
+theorem c04_path_fidelity_partial (p P out : Str) (hp : hasPrefixSlash p = true) (hv : validEncoded p = true)
+    (h : unescape .path p = some P) (ho : pathPipeline p = some out) : out = p ∧ rfcNorm out = rfcNorm p := by
+  have := c04_path_exact p P hp hv h
+  rw [this] at ho
+  injection ho with ho
+  subst ho
+  exact ⟨rfl, rfl⟩
+
+/-- outside the hypothesis the model does exactly one thing: it forwards net/url's re-encoding of the decoded path
+    (the shape the harness accepts as the known finding — anything else is reported) -/
+theorem c04_path_invalid_shape (p P : Str) (hp : hasPrefixSlash p = true) (hv : validEncoded p = false)
+    (h : unescape .path p = some P) : pathPipeline p = some (escape .path P) := by
+  have hP := unescape_prefixSlash p P hp h
+  have hne := ne_nil_of_prefixSlash hp
+  have hPs : P ≠ kStar := by intro hs; rw [hs, kStar_noSlash] at hP; cases hP
+  -- EscapedPath of the parsed URL falls back to escape(Path)
+  have hne' : p ≠ escape .path P := by
+    intro he
+    -- escape output is always valid, p is not
+    have : validEncoded (escape .path P) = true := by
+      unfold validEncoded
+      rw [List.all_eq_true]
+      intro b hb
+      clear he h hP hPs
+      induction P with
+      | nil => simp [escape] at hb
+      | cons c s ih =>
+        unfold escape at hb
+        by_cases hc : shouldEscape c .path = true
+        · simp only [hc, if_true, show ¬ (c = 32 ∧ Mode.path = Mode.query) by simp, if_false, List.mem_cons] at hb
+          rcases hb with hb | hb | hb | hb
+          · subst hb; decide
+          · subst hb; exact (upperhex_valid c).1
+          · subst hb; exact (upperhex_valid c).2
+          · exact ih hb
+        · have hc' : shouldEscape c .path = false := by simpa using hc
+          simp only [hc', Bool.false_eq_true, if_false, List.mem_cons] at hb
+          rcases hb with hb | hb
+          · subst hb; unfold validEncodedByte; simp [hc']
+          · exact ih hb
+    rw [← he, hv] at this; cases this
+  have he0 : escapedPath ⟨P, if p = escape .path P then [] else p⟩ = escape .path P := by
+    simp only [if_neg hne']
+    unfold escapedPath
+    simp [hv, hPs]
+  have hesc : hasPrefixSlash (escape .path P) = true := escape_prefixSlash P hP
+  unfold pathPipeline
+  rw [setPath_path p P h]
+  simp only
+  have hls : locationStringPath ⟨P, if p = escape .path P then [] else p⟩ = escape .path P := by
+    unfold locationStringPath; simp only [he0]; simp [hesc]
+  rw [hls, setPath_path _ P (unescape_escape .path P)]
+  simp only [if_true]
+  have hcond : ¬ (¬ hasSuffixSlash P = true ∧ hasSuffixSlash P = true) := fun hc => hc.1 hc.2
+  simp only [hcond, if_false]
+  rcases requestURIPath_join ⟨P, []⟩ hP (Or.inl rfl) with hj | hj
+  · rw [hj]; unfold escapedPath; simp [hPs]
+  · rw [hj]
+    have : escapedPath ⟨P, []⟩ = escape .path P := by unfold escapedPath; simp [hPs]
+    rw [this]
+    unfold escapedPath
+    by_cases hv2 : (escape .path P ≠ [] ∧ validEncoded (escape .path P) = true ∧ unescape .path (escape .path P) = some P)
+    · simp [hv2]
+    · simp [hv2, hPs]
 
 /-! ## request: query -/
 
@@ -341,9 +409,9 @@ theorem c04_dispatcher_table (s : Scenario) : dispatcher s = tableDispatch s := 
 
 /-- the model of the chain computes the closed-form decision table -/
 theorem c04_decision_table (s : Scenario) : serve s = table s := by
-  unfold serve table withMetrics withUpstreamInfo withAuthentication withImpersonation withDispatcher
+  unfold serve table withRequestInfo withUpstreamInfo withAuthentication withImpersonation withDispatcher
   rw [c04_dispatcher_table]
-  cases hlu : s.labelsUTF8 <;> cases hip : s.hostIsIP <;> cases hck : s.clusterKnown <;> cases hda : s.denyAll <;> cases hau : s.authOK
+  cases hri : s.requestInfoOK <;> cases hip : s.hostIsIP <;> cases hck : s.clusterKnown <;> cases hda : s.denyAll <;> cases hau : s.authOK
     <;> cases him : s.imp
     <;> simp [terminateWithError, errorNegotiated, suggestsClientDelay, newServiceUnavailable, newTooManyRequests,
           newForbidden, newUnauthorized]
@@ -371,31 +439,31 @@ theorem c04_terminated_judges (s : Scenario) (a : Answer) (h : serve s = .termin
   simp [wellFormed, matchesRow, obsOfAnswer, h1, h2, h3, h4]
 
 /-- the rows, one by one -/
-theorem c04_row_unknown_cluster (s : Scenario) (h0 : s.labelsUTF8 = true) (h1 : s.hostIsIP = false) (h2 : s.clusterKnown = false) :
+theorem c04_row_unknown_cluster (s : Scenario) (h0 : s.requestInfoOK = true) (h1 : s.hostIsIP = false) (h2 : s.clusterKnown = false) :
     ∃ a, serve s = .terminated a ∧ a.httpCode = 503 ∧ a.retryAfter = some Gen.C04.unavailableRetryAfter := by
   rw [c04_decision_table]; unfold table tableDispatch; simp [h0, h1, h2]
 
-theorem c04_row_deny_all (s : Scenario) (h0 : s.labelsUTF8 = true) (h1 : s.hostIsIP = false) (h2 : s.clusterKnown = true) (h3 : s.denyAll = true) :
+theorem c04_row_deny_all (s : Scenario) (h0 : s.requestInfoOK = true) (h1 : s.hostIsIP = false) (h2 : s.clusterKnown = true) (h3 : s.denyAll = true) :
     ∃ a, serve s = .terminated a ∧ a.httpCode = 429 ∧ a.retryAfter = none := by
   rw [c04_decision_table]; unfold table tableDispatch; simp [h0, h1, h2, h3]
 
-theorem c04_row_unauthenticated (s : Scenario) (h0 : s.labelsUTF8 = true) (h1 : s.hostIsIP = false) (h2 : s.clusterKnown = true)
+theorem c04_row_unauthenticated (s : Scenario) (h0 : s.requestInfoOK = true) (h1 : s.hostIsIP = false) (h2 : s.clusterKnown = true)
     (h3 : s.denyAll = false) (h4 : s.authOK = false) :
     ∃ a, serve s = .terminated a ∧ a.httpCode = 401 := by
   rw [c04_decision_table]; unfold table tableDispatch; simp [h0, h1, h2, h3, h4]
 
-theorem c04_row_impersonation_refused (s : Scenario) (h0 : s.labelsUTF8 = true) (h1 : s.hostIsIP = false) (h2 : s.clusterKnown = true)
+theorem c04_row_impersonation_refused (s : Scenario) (h0 : s.requestInfoOK = true) (h1 : s.hostIsIP = false) (h2 : s.clusterKnown = true)
     (h3 : s.denyAll = false) (h4 : s.authOK = true) (h5 : s.imp = .refused) :
     ∃ a, serve s = .terminated a ∧ a.httpCode = 403 := by
   rw [c04_decision_table]; unfold table tableDispatch; simp [h0, h1, h2, h3, h4, h5]
 
-theorem c04_row_no_policy (s : Scenario) (h0 : s.labelsUTF8 = true) (h1 : s.hostIsIP = false) (h2 : s.clusterKnown = true)
+theorem c04_row_no_policy (s : Scenario) (h0 : s.requestInfoOK = true) (h1 : s.hostIsIP = false) (h2 : s.clusterKnown = true)
     (h3 : s.denyAll = false) (h4 : s.authOK = true) (h5 : s.imp = .none ∨ s.imp = .allowed) (h6 : s.policyMatches = false) :
     ∃ a, serve s = .terminated a ∧ a.httpCode = 500 := by
   rw [c04_decision_table]; unfold table tableDispatch
   rcases h5 with h5 | h5 <;> simp [h0, h1, h2, h3, h4, h5, h6]
 
-theorem c04_row_rate_limited (s : Scenario) (h0 : s.labelsUTF8 = true) (h1 : s.hostIsIP = false) (h2 : s.clusterKnown = true)
+theorem c04_row_rate_limited (s : Scenario) (h0 : s.requestInfoOK = true) (h1 : s.hostIsIP = false) (h2 : s.clusterKnown = true)
     (h3 : s.denyAll = false) (h4 : s.authOK = true) (h5 : s.imp = .none ∨ s.imp = .allowed) (h6 : s.policyMatches = true)
     (h7 : s.acquireOK = false) :
     ∃ a, serve s = .terminated a ∧ a.httpCode = 429 ∧
@@ -403,7 +471,7 @@ theorem c04_row_rate_limited (s : Scenario) (h0 : s.labelsUTF8 = true) (h1 : s.h
   rw [c04_decision_table]; unfold table tableDispatch
   rcases h5 with h5 | h5 <;> simp [h0, h1, h2, h3, h4, h5, h6, h7]
 
-theorem c04_row_no_ready_endpoint (s : Scenario) (h0 : s.labelsUTF8 = true) (h1 : s.hostIsIP = false) (h2 : s.clusterKnown = true)
+theorem c04_row_no_ready_endpoint (s : Scenario) (h0 : s.requestInfoOK = true) (h1 : s.hostIsIP = false) (h2 : s.clusterKnown = true)
     (h3 : s.denyAll = false) (h4 : s.authOK = true) (h5 : s.imp = .none ∨ s.imp = .allowed) (h6 : s.policyMatches = true)
     (h7 : s.acquireOK = true) (h8 : s.popOK = false) :
     ∃ a, serve s = .terminated a ∧ a.httpCode = 503 ∧ a.retryAfter = some Gen.C04.unavailableRetryAfter := by
@@ -412,45 +480,55 @@ theorem c04_row_no_ready_endpoint (s : Scenario) (h0 : s.labelsUTF8 = true) (h1 
 
 /-- a request is forwarded exactly when no row terminates it -/
 theorem c04_forward_iff (s : Scenario) :
-    serve s = .forward ↔ (s.labelsUTF8 = true ∧ s.hostIsIP = false ∧ s.clusterKnown = true ∧ s.denyAll = false ∧ s.authOK = true
+    serve s = .forward ↔ (s.requestInfoOK = true ∧ s.hostIsIP = false ∧ s.clusterKnown = true ∧ s.denyAll = false ∧ s.authOK = true
       ∧ (s.imp = .none ∨ s.imp = .allowed) ∧ s.policyMatches = true ∧ s.acquireOK = true ∧ s.popOK = true) := by
   rw [c04_decision_table]; unfold table tableDispatch
-  cases hlu : s.labelsUTF8 <;> cases hip : s.hostIsIP <;> cases hck : s.clusterKnown <;> cases hda : s.denyAll <;> cases hau : s.authOK
+  cases hri : s.requestInfoOK <;> cases hip : s.hostIsIP <;> cases hck : s.clusterKnown <;> cases hda : s.denyAll <;> cases hau : s.authOK
     <;> cases him : s.imp <;> cases hpm : s.policyMatches <;> cases haq : s.acquireOK <;> cases hpo : s.popOK
     <;> simp
 
-/-- FULL statement (finding C04-impersonation-malformed-plain-500): every request the gateway terminates itself is
-    answered with an API `Status` (no outcome is a plain-text error). -/
+/-- malformed impersonation headers (no `Impersonate-User`) are answered with a 500 `Status` (repaired by e67e36e;
+    it used to be `text/plain`) -/
+theorem c04_row_impersonation_malformed (s : Scenario) (h0 : s.requestInfoOK = true) (h1 : s.hostIsIP = false) (h2 : s.clusterKnown = true)
+    (h3 : s.denyAll = false) (h4 : s.authOK = true) (h5 : s.imp = .malformed) :
+    ∃ a, serve s = .terminated a ∧ a.httpCode = 500 ∧ a.body.reason = kInternalError := by
+  rw [c04_decision_table]; unfold table tableDispatch; simp [h0, h1, h2, h3, h4, h5]
+
+/-- FULL statement (finding C04-requestinfo-error-plain-500): every request the gateway terminates itself is answered
+    with an API `Status` — no outcome is a plain-text error. -/
 def TerminatedAlwaysStatus : Prop := ∀ s c, serve s ≠ .plainError c
 
-/-- … it is false of the code: impersonation headers without `Impersonate-User` are answered by
-    `responsewriters.InternalError`, which writes `text/plain`. -/
+/-- … it is false of the code: when the RequestInfo resolver fails (`GET /api/v1/proxy`, `GET /api/v1/watch`),
+    `WithRequestInfo` answers with `responsewriters.InternalError`, which writes `text/plain`. -/
 theorem c04_terminated_full_false : ¬ TerminatedAlwaysStatus := by
   intro h
-  exact h ⟨true, false, true, false, true, .malformed, true, true, [], true⟩ 500 (by decide)
+  exact h ⟨false, false, true, false, true, .none, true, true, [], true⟩ 500 (by decide)
 
-/-- partial: apart from malformed impersonation headers, no outcome is a plain-text error -/
-theorem c04_terminated_status_partial (s : Scenario) (c : Nat) (h : s.imp ≠ .malformed) : serve s ≠ .plainError c := by
-  rw [c04_decision_table]; unfold table tableDispatch
-  cases hlu : s.labelsUTF8 <;> cases hip : s.hostIsIP <;> cases hck : s.clusterKnown <;> cases hda : s.denyAll <;> cases hau : s.authOK
-    <;> cases him : s.imp <;> cases hpm : s.policyMatches <;> cases haq : s.acquireOK <;> cases hpo : s.popOK
-    <;> simp_all
-
-/-- FULL statement (finding C04-non-utf8-resource-aborts): every request is either forwarded or answered. -/
-def AlwaysAnswered : Prop := ∀ s, serve s ≠ .aborted
-
-/-- … it is false of the code: a request whose resource segment decodes to bytes that are not valid UTF-8
-    (`/api/v1/namespaces/x/pods/a/%ff`) panics in a metric label and the connection is dropped. -/
-theorem c04_always_answered_false : ¬ AlwaysAnswered := by
-  intro h
-  exact h ⟨false, false, true, false, true, .none, true, true, [], true⟩ (by decide)
-
-/-- partial: with UTF-8 labels every request is forwarded, handed to the control plane, or answered -/
-theorem c04_answered_partial (s : Scenario) (h : s.labelsUTF8 = true) : serve s ≠ .aborted := by
+/-- partial, with the explicit decidable hypothesis that the resolver succeeds: no outcome is a plain-text error -/
+theorem c04_terminated_status_partial (s : Scenario) (c : Nat) (h : s.requestInfoOK = true) : serve s ≠ .plainError c := by
   rw [c04_decision_table]; unfold table tableDispatch
   cases hip : s.hostIsIP <;> cases hck : s.clusterKnown <;> cases hda : s.denyAll <;> cases hau : s.authOK
     <;> cases him : s.imp <;> cases hpm : s.policyMatches <;> cases haq : s.acquireOK <;> cases hpo : s.popOK
     <;> simp_all
+
+/-- **Every request (whose RequestInfo resolves) is forwarded, handed to the control plane (IP-literal Host), or
+    answered with a well-formed `Status`** — there is no other outcome (since e67e36e and 1375191: malformed
+    impersonation gets a Status, non-UTF-8 resources no longer drop the connection). -/
+theorem c04_every_outcome (s : Scenario) (h0 : s.requestInfoOK = true) :
+    serve s = .forward ∨ serve s = .notProxied ∨ ∃ a, serve s = .terminated a ∧ wellFormedAnswer a := by
+  cases h : serve s with
+  | forward => exact Or.inl rfl
+  | notProxied => exact Or.inr (Or.inl rfl)
+  | terminated a => exact Or.inr (Or.inr ⟨a, rfl, c04_terminated_wellformed s a h⟩)
+  | plainError c => exact absurd h (c04_terminated_status_partial s c h0)
+
+/-- only an IP-literal Host is handed to the control plane -/
+theorem c04_not_proxied_iff (s : Scenario) :
+    serve s = .notProxied ↔ (s.requestInfoOK = true ∧ s.hostIsIP = true ∧ s.authOK = true ∧ (s.imp = .none ∨ s.imp = .allowed)) := by
+  rw [c04_decision_table]; unfold table tableDispatch
+  cases hri : s.requestInfoOK <;> cases hip : s.hostIsIP <;> cases hck : s.clusterKnown <;> cases hda : s.denyAll <;> cases hau : s.authOK
+    <;> cases him : s.imp <;> cases hpm : s.policyMatches <;> cases haq : s.acquireOK <;> cases hpo : s.popOK
+    <;> simp
 
 /-! ## regenerated facts: the structure the models were written against -/
 
